@@ -339,6 +339,10 @@ def c04(tier, seed, only=None):
     t0 = time.time()
     mons = [SM + "TerminalFinal"]
     jobs = _ctrl_jobs(tier, mons, dict(pause=1, resume=1, cancel=1, render=True, horizon=60), big_dev=1)
+    # the workflow fails inside the query (a staged task cannot be rendered) while a sibling is staged too
+    for s in gen.fx_all(tier):
+        if (s.meta.get("trigger") or {}).get("kind") == "dispatch":
+            jobs.append(job(s, dict(cancel=1, render=True, horizon=40, dev=2), mons))
     jobs = _filter(jobs, only)
     results = runner.run_jobs(jobs, seed=seed)
     rule = (
